@@ -27,7 +27,10 @@ import (
 	"github.com/Comcast/sheens/interpreters/ecmascript"
 	"github.com/Comcast/sheens/match"
 
-	yaml "gopkg.in/yaml.v2"
+	// Like the other tools: this YAML package gives
+	// map[string]interface{} (not map[interface{}]interface{}),
+	// which is what a branch pattern needs to be.
+	yaml "github.com/jsccast/yaml"
 )
 
 var (
